@@ -86,6 +86,77 @@ Theorem C14_selector_keys : SELECTOR_KEYS =
    [114;111;117;116;101;114;45;105;100]].
 Proof. exact selector_keys_known. Qed.
 
+(* ------------------------------------------------------------------ selectors as text *)
+
+(* limit.py's regular expression (^|\s)term($|\s|,), modelled as a substring search with its two
+   boundary tests, finds "<key> <value>" in a peer name made of tokens exactly when that token pair
+   occurs - for ALL strings: a value that is only the beginning or the end of the peer's never matches *)
+Theorem C14_match_is_token_equality : forall k v ws,
+  token k -> token v -> Forall token ws ->
+  (re_search (k ++ 32 :: v) (join ws) = true <-> pair_occurs k v ws).
+Proof. exact match_is_token_equality. Qed.
+
+(* for a name built from (key, value) fields, no key being also a value: the term selects the peer iff
+   the field has exactly that value *)
+Theorem C14_match_is_field_equality : forall k v fields,
+  token k -> token v ->
+  (forall p, In p fields -> token (fst p) /\ token (snd p) /\ k <> snd p) ->
+  (re_search (k ++ 32 :: v) (join (name_tokens fields)) = true <-> In (k, v) fields).
+Proof. exact match_is_field_equality. Qed.
+
+Theorem C14_prefix_never_selects : forall k v extra fields,
+  token k -> token v -> extra <> [] ->
+  (forall p, In p fields -> token (fst p) /\ token (snd p) /\ k <> snd p) ->
+  (forall v', In (k, v') fields -> v' = v ++ extra) ->
+  re_search (k ++ 32 :: v) (join (name_tokens fields)) = false.
+Proof. exact prefix_never_selects. Qed.
+
+(* ------------------------------------------------------------------ groups *)
+
+(* `peer <selector> group a ; b ; ...` is one command line: if any part does not parse nothing at all
+   is changed and the answer is error; otherwise everything is applied to the selected peers only *)
+Theorem C14_group_atomic : forall all st sel subs, all_parsed subs = None ->
+  gexec all st (GInline sel subs) = (st, greply st Error).
+Proof. exact inline_refused. Qed.
+
+Theorem C14_group_applied : forall all st sel subs ops, all_parsed subs = Some ops -> subs <> [] ->
+  g_ribs (fst (gexec all st (GInline sel subs))) = apply_sel sel ops (g_ribs st) /\
+  snd (gexec all st (GInline sel subs)) = greply st Done.
+Proof. exact inline_applied. Qed.
+
+(* lines written between `group start` and `group end` are only stored: no RIB changes, each is acknowledged *)
+Theorem C14_group_lines_only_stored : forall all subs st b outs, g_buf st = Some b -> length outs = length subs ->
+  fst (grun all st (map (fun p => GLine (fst p) (snd p)) (combine subs outs))) = mkG (g_x st) (Some (b ++ subs)) /\
+  snd (grun all st (map (fun p => GLine (fst p) (snd p)) (combine subs outs))) = map (fun _ => greply st Done) subs.
+Proof. exact lines_buffered. Qed.
+
+(* `group end`: all of the stored lines, or none *)
+Theorem C14_group_end_atomic : forall all st b, g_buf st = Some b -> all_parsed b = None ->
+  gexec all st GEnd = (mkG (g_x st) None, greply st Error).
+Proof. exact end_refused. Qed.
+
+Theorem C14_group_end_applied : forall all st b ops, g_buf st = Some b -> all_parsed b = Some ops ->
+  g_buf (fst (gexec all st GEnd)) = None /\
+  g_ribs (fst (gexec all st GEnd)) = apply_sel all ops (g_ribs st) /\
+  snd (gexec all st GEnd) = greply st Done.
+Proof. exact end_applied. Qed.
+
+(* ------------------------------------------------------------------ main loop and scheduler *)
+
+(* one command per loop iteration, then every scheduled callback: whatever the arrival times and the
+   mix of commands answered at once and commands answered by a callback, the replies written so far
+   followed by the commands still waiting are the commands in arrival order, and no callback is left *)
+Theorem C14_reply_order_with_scheduler : forall evs,
+  l_async (lrun 1 linit evs) = [] /\
+  l_written (lrun 1 linit evs) ++ map snd (l_wait (lrun 1 linit evs)) = arrived evs.
+Proof. exact scheduler_order. Qed.
+
+(* the one-per-iteration rule is what the theorem rests on: handing two commands over at once lets the
+   one answered at once overtake the scheduled one *)
+Theorem C14_batching_breaks_order :
+  l_written (lrun 2 linit [Arrive Scheduled 1; Arrive Immediate 2; Iterate]) = [2; 1].
+Proof. exact batching_reorders. Qed.
+
 (* non-vacuity: two processes, reads cut inside lines, "debug " line dropped, brackets spaced,
    one pop in the middle; then a selective announce, a refused command and a silenced session *)
 Example C14_example_intake :
@@ -103,6 +174,22 @@ Example C14_example_exec :
   exec_all st os = (mkX [(1, []); (2, [(7, 2); (8, 1)]); (3, [])] false, [[Done]; [Error]; [Error]; []; []]).
 Proof. vm_compute. reflexivity. Qed.
 
+(* non-vacuity: the IPv6 address that is the beginning of the peer's does not select it, the full one does;
+   the comma boundary and the wildcard of the real expression *)
+Example C14_example_match :
+  let name := [110;101;105;103;104;98;111;114;32;50;48;48;49;58;100;98;56;58;58;49;58;50;32;108;111;99;97;108;45;105;112;32;50;48;48;49;58;100;98;56;58;58;57;32;108;111;99;97;108;45;97;115;32;54;53;48;48;48;32;112;101;101;114;45;97;115;32;54;53;48;48;49;32;114;111;117;116;101;114;45;105;100;32;49;46;50;46;51;46;52;32;102;97;109;105;108;121;45;97;108;108;111;119;101;100;32;105;110;45;111;112;101;110] in
+  (re_search [110;101;105;103;104;98;111;114;32;50;48;48;49;58;100;98;56;58;58;49] name, re_search [110;101;105;103;104;98;111;114;32;50;48;48;49;58;100;98;56;58;58;49;58;50] name, re_search [108;111;99;97;108;45;97;115;32;54;53;48;48] name,
+   re_search [97;32;98] [120;32;97;32;98;44;99], match_neighbor [[110;101;105;103;104;98;111;114;32;42]; [112;101;101;114;45;97;115;32;54;53;48;48;49]] name)
+  = (false, true, false, true, true).
+Proof. vm_compute. reflexivity. Qed.
+
+Example C14_example_group :
+  let st := mkG (mkX [(1, []); (2, [])] true) None in
+  (snd (grun [1; 2] st [GStart; GLine (Some [Announce 7 1]) Unknown; GLine None Unknown; GEnd]),
+   g_ribs (fst (grun [1; 2] st [GStart; GLine (Some [Announce 7 1]) Unknown; GEnd; GInline [2] [Some [Announce 8 2]; Some [Withdraw 7]]])))
+  = ([[Done]; [Done]; [Done]; [Error]], [(1, [(7, 1)]); (2, [(8, 2)])]).
+Proof. vm_compute. reflexivity. Qed.
+
 Print Assumptions C14_chunking_independent.
 Print Assumptions C14_chunking_same.
 Print Assumptions C14_oversize_needs_hypothesis.
@@ -116,3 +203,13 @@ Print Assumptions C14_selector_dispatch.
 Print Assumptions C14_selector_every_term.
 Print Assumptions C14_selector_nobody.
 Print Assumptions C14_selector_keys.
+Print Assumptions C14_match_is_token_equality.
+Print Assumptions C14_match_is_field_equality.
+Print Assumptions C14_prefix_never_selects.
+Print Assumptions C14_group_atomic.
+Print Assumptions C14_group_applied.
+Print Assumptions C14_group_lines_only_stored.
+Print Assumptions C14_group_end_atomic.
+Print Assumptions C14_group_end_applied.
+Print Assumptions C14_reply_order_with_scheduler.
+Print Assumptions C14_batching_breaks_order.
